@@ -130,4 +130,65 @@ def fromVcfRaw (samples : List String) (raws : List RawRec) (autoGroup : Bool) :
 /-- entry (a, b, c) of a nested list (0 outside) -/
 def entry3' (A : List (List (List Int))) (a b c : Nat) : Int := ((A.getD a []).getD b []).getD c 0
 
+/-! ### the decidable Spec of the import (driver op `c16.spec_vcf`), evaluated on what the
+       IMPLEMENTATION returned -/
+
+/-- the variants of the imported matrix, in its order -/
+def variants (recs : List Rec) (autoGroup : Bool) : List Rec := if autoGroup then grouped recs else recs
+
+/-- what `from_vcf` returned: labels and the matrix of the class asked for (the other one empty) -/
+structure Got where
+  taxa : List String
+  chrgrp : List Int
+  phypos : List Int
+  name : List String
+  matP : List (List (List Int))
+  matU : List (List Int)
+  deriving Repr
+
+/-- the calls of variant `j` as stored: phased class — allele 0 of every sample, then allele 1 of every
+    sample; unphased class — the dosage of every sample -/
+def colOut (phased : Bool) (n : Nat) (o : Got) (j : Nat) : List Int :=
+  if phased then (List.range n).map (fun i => entry3' o.matP 0 i j) ++ (List.range n).map (fun i => entry3' o.matP 1 i j)
+  else (List.range n).map (fun i => (o.matU.getD i []).getD j 0)
+
+/-- the same column as the file's record has it -/
+def colRec (phased : Bool) (r : Rec) : List Int :=
+  if phased then r.calls.map (·.1) ++ r.calls.map (·.2) else r.calls.map (fun c => c.1 + c.2)
+
+def shapeOk (phased : Bool) (n p : Nat) (o : Got) : Bool :=
+  o.chrgrp.length == p && o.phypos.length == p && o.name.length == p &&
+  (if phased then o.matP.length == 2 && o.matP.all (fun pl => pl.length == n && pl.all (·.length == p))
+   else o.matU.length == n && o.matU.all (·.length == p))
+
+/-- variant `j` of the output with / without its identifier -/
+def outVar (phased : Bool) (n : Nat) (o : Got) (j : Nat) : Int × Int × List Int :=
+  (o.chrgrp.getD j 0, o.phypos.getD j 0, colOut phased n o j)
+def outNamed (phased : Bool) (n : Nat) (o : Got) (j : Nat) : Int × Int × String × List Int :=
+  (o.chrgrp.getD j 0, o.phypos.getD j 0, o.name.getD j "", colOut phased n o j)
+def recVar (phased : Bool) (r : Rec) : Int × Int × List Int := (r.chrom, r.pos, colRec phased r)
+def recNamedOf (phased : Bool) (r : Rec) : Int × Int × String × List Int := (r.chrom, r.pos, r.id, colRec phased r)
+
+/-- **the Spec**: sample names; the variants — each with its chromosome, position, identifier (when the
+    record has one: `hasId`) and column of calls — are the file's records, in file order (no grouping)
+    or as a permutation in (chromosome, position) order (grouping) -/
+def specVcf (samples : List String) (recs : List Rec) (hasId : List Bool) (g phased : Bool) (o : Got) : Bool :=
+  let n := samples.length
+  let p := recs.length
+  let outVars := (List.range p).map (outVar phased n o)
+  let recVars := recs.map (recVar phased)
+  let outNm := (List.range p).map (outNamed phased n o)
+  let recNm := (recs.zip hasId).filterMap (fun rh => if rh.2 then some (recNamedOf phased rh.1) else none)
+  let namesFileOrder := ((recs.zip hasId).zipIdx).all (fun rhi => !rhi.1.2 || o.name.getD rhi.2 "" == rhi.1.1.id)
+  let namesAnyOrder := recNm.all (fun v => recNm.count v ≤ outNm.count v)
+  let sameOrder := outVars == recVars
+  let isPerm := outVars.length == recVars.length && outVars.all (fun v => outVars.count v == recVars.count v)
+  let sorted := (List.range (p - 1)).all (fun jx =>
+    !(keyLt (o.chrgrp.getD (jx + 1) 0, o.phypos.getD (jx + 1) 0) (o.chrgrp.getD jx 0, o.phypos.getD jx 0)))
+  o.taxa == samples && shapeOk phased n p o &&
+    (if g then isPerm && sorted && namesAnyOrder else sameOrder && namesFileOrder)
+
+/-- the model's own output in the shape the Spec reads -/
+def gotOf (o : Out) : Got := ⟨o.taxa, o.chrgrp, o.phypos, o.name, o.matP, o.matU⟩
+
 end StoreVcf
